@@ -513,7 +513,12 @@ impl ChainStorage for ZarrAsyncChainStorage {
                     .copied()
                     .unwrap_or(0);
                 let s = sample_counts.get(dim.as_str()).copied().unwrap_or(0);
-                (dim.clone(), (w, s))
+                if self.last_sample_was_warmup {
+                    // No sampling draw was ever recorded: the buffers still hold warmup events.
+                    (dim.clone(), (s, 0))
+                } else {
+                    (dim.clone(), (w, s))
+                }
             })
             .collect();
         Ok(counts)
@@ -528,7 +533,11 @@ impl ChainStorage for ZarrAsyncChainStorage {
                     .get(dim.as_str())
                     .copied()
                     .unwrap_or(0);
-                (dim, (w, s))
+                if self.last_sample_was_warmup {
+                    (dim, (s, 0))
+                } else {
+                    (dim, (w, s))
+                }
             })
             .collect();
         Ok(Some(counts))
